@@ -1436,13 +1436,28 @@ impl<'de, 'e> de::Deserializer<'de> for YamlDeserializer<'de, 'e> {
                 value,
                 ..
             }) => {
-                // Check for null - not valid for string deserialization
-                if tag == &SfTag::Null || scalar_is_nullish(value, style) {
-                    let loc = *location;
+                // Same acceptance rules as `deserialize_string`, so that a borrowed target sees
+                // exactly what an owned one sees (or an error).
+                let loc = *location;
+                if (tag == &SfTag::Null || scalar_is_nullish(value, style)) && tag != &SfTag::String {
                     let _ = self.ev.next()?;
                     return Err(Error::NullIntoString { location: loc });
                 }
-                *location
+                if self.cfg.no_schema && maybe_not_string(value, style) && tag != &SfTag::String {
+                    let (value, _tag, location) = self.take_scalar_event()?;
+                    return Err(Error::quoting_required(&value).with_location(location));
+                }
+                if *tag == SfTag::Binary && !self.cfg.ignore_binary_tag_for_string {
+                    // The decoded text does not exist in the input: it cannot be lent.
+                    return self.deserialize_string(visitor);
+                }
+                if !tag.can_parse_into_string()
+                    && *tag != SfTag::NonSpecific
+                    && !(self.cfg.ignore_binary_tag_for_string && *tag == SfTag::Binary)
+                {
+                    return Err(Error::TaggedScalarCannotDeserializeIntoString { location: loc });
+                }
+                loc
             }
             Some(other) => {
                 return Err(Error::unexpected("string scalar").with_location(other.location()));
